@@ -123,10 +123,14 @@ pub fn finish(
         .collect();
     violations.sort();
     violations.dedup_by(|a, b| a.rule == b.rule && a.class == b.class);
+    let mut probes = w.probes.clone();
+    if rep.step_limit {
+        *probes.entry("step_limit_reached").or_insert(0) += 1;
+    }
     RunOutput {
         violations,
         faults: w.faults.clone(),
-        probes: w.probes.clone(),
+        probes,
         steps: rep.steps as u64,
         vtime_us: rep.end_us,
         nontrivial,
